@@ -1,6 +1,7 @@
 package iso9660
 
 import (
+	"bytes"
 	"io"
 
 	"github.com/diskfs/go-diskfs/internal/vp"
@@ -147,4 +148,77 @@ func VP_C10_iso_closed() {
 		vp.Cover("read after close fails with an error")
 	}
 	vp.Cover("read after close")
+}
+
+// VP_C10_iso_sequence_vs_bytes_reader: the executable specification itself. A file of 0..6
+// arbitrary bytes; the same three calls (Seek with arbitrary offset/whence, then two Reads with
+// arbitrary buffer lengths) are applied to the iso9660 handle and to a bytes.Reader over the
+// file's content; results are compared call by call. (io.Reader lets an implementation report
+// io.EOF together with the last bytes; bytes.Reader reports it on the next call. So: whenever
+// bytes.Reader says io.EOF the handle must, and the handle may say it only at the end.)
+func VP_C10_iso_sequence_vs_bytes_reader() {
+	const M = 6
+	dev := vpdev.NewMemDev("disk", -1)
+	dev.UF = true
+	dev.NoWrites = true
+	fs := &FileSystem{backend: dev, blocksize: 2048}
+	size := vp.U32("size")
+	vp.Assume(size <= M)
+	loc := vp.U32("location")
+	fl := &File{directoryEntry: &directoryEntry{size: size, location: loc, filesystem: fs}}
+	content := make([]byte, M)
+	for i := range content {
+		content[i] = dev.ByteAt(int64(loc)*2048 + int64(i))
+	}
+	ref := bytes.NewReader(content[:size])
+
+	so := vp.I64("seekoff")
+	wh := vp.Int("whence")
+	vp.Assume(wh >= 0)
+	vp.Assume(wh <= 2)
+	vp.NoPanic()
+	p1, e1 := fl.Seek(so, wh)
+	vp.AllowPanic()
+	p2, e2 := ref.Seek(so, wh)
+	if e2 != nil {
+		vp.Assert(e1 != nil, "Seek fails where bytes.Reader.Seek fails")
+		vp.Cover("both seeks rejected")
+	} else {
+		vp.Assert(e1 == nil, "Seek succeeds where bytes.Reader.Seek succeeds")
+		vp.Assert(p1 == p2, "Seek returns what bytes.Reader.Seek returns")
+	}
+	for step := 0; step < 2; step++ {
+		k := vp.Int("len" + string(rune('0'+step)))
+		vp.Assume(k >= 0)
+		vp.Assume(k <= 4)
+		b1 := make([]byte, 4)
+		b2 := make([]byte, 4)
+		vp.NoPanic()
+		n1, r1 := fl.Read(b1[:k])
+		vp.AllowPanic()
+		n2, r2 := ref.Read(b2[:k])
+		vp.Assert(n1 == n2, "Read returns as many bytes as bytes.Reader.Read")
+		for i := 0; i < 4; i++ {
+			vp.Assert(b1[i] == b2[i], "Read delivers the bytes bytes.Reader.Read delivers")
+		}
+		c1, _ := fl.Seek(0, io.SeekCurrent)
+		c2, _ := ref.Seek(0, io.SeekCurrent)
+		vp.Assert(c1 == c2, "cursor where bytes.Reader has it")
+		if r2 == io.EOF {
+			if k > 0 {
+				vp.Assert(r1 == io.EOF, "io.EOF where bytes.Reader reports it")
+				vp.Cover("both report EOF")
+			}
+		}
+		if r1 == io.EOF {
+			vp.Assert(c1 >= int64(size), "io.EOF only at the end")
+		} else if k > 0 {
+			vp.Assert(r1 == nil, "no other error")
+		}
+		if n1 > 0 {
+			if step == 1 {
+				vp.Cover("second read delivers bytes")
+			}
+		}
+	}
 }
